@@ -326,7 +326,7 @@ def _write(f, text):
         return
     if isinstance(f, int):
         if f >= 0:
-            os.write(f, text.encode('utf-8'))
+            os.write(f, text.encode('utf-8', 'surrogateescape'))
         return
     if hasattr(f, 'fileno'):
         # a real child gets the file *descriptor* (subprocess calls fileno(), which e.g. makes exactly's spooled
@@ -341,7 +341,7 @@ def _write(f, text):
         if fd is not None:
             # NO flush of the parent's file object: subprocess does not flush it either, so text the parent has written to `f`
             # but not flushed lands AFTER what the child writes (found as KF-C10-STDOUT-ORDER when an earlier flush here hid it)
-            data = text.encode('utf-8')
+            data = text.encode('utf-8', 'surrogateescape')   # lone surrogates (\udc80..\udcff) stand for raw bytes: output that is not UTF-8
             while data:
                 n = os.write(fd, data)
                 data = data[n:]
